@@ -156,6 +156,15 @@ def cases(tier, seed):
         ops.append("sx.parse %s" % "".join("%02x" % rnd.choice([rnd.randint(1, 255), 0x28, 0x29, 0x20]) for _ in range(rnd.randint(1, 10))))
     for i in range(0, len(ops), 400):
         cs.append(Case("sx-%d" % i, ops[i:i + 400], ("sx",)))
+    return cs + deep_cases()
+
+
+def deep_cases():
+    """nesting depth: small and moderate depths must work; an input nested a million deep overflows the C stack
+    (recorded finding, see KNOWN_FINDINGS.txt) - one operation per case so that the crash is attributed exactly"""
+    cs = [Case("deep-small", ["sx.deep %s %d" % (k, n) for k in ("open", "nested") for n in (0, 1, 2, 3, 7, 100, 5000)], ("nesting",))]
+    for k in ("open", "nested"):
+        cs.append(Case("deep-%s" % k, ["sx.deep %s 1000000" % k], ("nesting", "deep")))
     return cs
 
 
